@@ -73,6 +73,32 @@ theorem hard_cost_closed_form (shared full : Bool) (w : String → Nat) (u : Nat
   intro l hl
   exact contrib_hard hw full u l (mem_targetList hl)
 
+/-- `full_cost` adds exactly the cost of the layers outside choice blocks, whatever the
+coefficients -/
+theorem full_cost_adds_fixed_layers (shared : Bool) (θ : String → List K) (u : Nat → K) (g : Graph) :
+    snCost shared true θ u g = snCost shared false θ u g +
+      (((targetList shared g).filter fun l => !l.isComb && !l.inBranch).map fun l => u l.node).sum := by
+  rw [cost_is_blocks_plus_fixed, cost_is_blocks_plus_fixed]; simp
+
+/-- **C06, last clause, per-invocation metrics**: under hard selection the cost (with `full_cost`) is
+the metric computed from scratch on the exported network — provided every layer of a winning
+branch is called once per call site of its block and **all call sites of a module have the same
+output shape** (`SitesSane`; K8 below shows the hypothesis cannot be dropped), and export keeps by
+name what the cost code charges by name (`NamesSane`, established by C03). Blocks invoked any
+number of times. -/
+theorem hard_cost_eq_export_cost {w : String → Nat} {u : Nat → K} {g0 g : Graph} (hwf : WF g0)
+    (he : exportGraph w g0 = some g) (hsel : SelectionOk g0 w) (hn : NamesSane w g0 g)
+    (hu : SitesSane w u g0) :
+    snCost false true (hardTheta g0 w) u g0 = plainCost false u g :=
+  hard_eq_export_per_invocation (exportGraph_spec hwf he) hsel hn hu
+
+/-- **C06, last clause, shared metrics**: no hypothesis on shapes or call sites is needed — every
+module is charged once, at its first call site, by the SuperNet and on the exported network. -/
+theorem hard_cost_eq_export_cost_shared {w : String → Nat} {u : Nat → K} {g0 g : Graph} (hwf : WF g0)
+    (he : exportGraph w g0 = some g) (hsel : SelectionOk g0 w) (hn : NamesSane w g0 g) :
+    snCost true true (hardTheta g0 w) u g0 = plainCost true u g :=
+  hard_eq_export_shared (exportGraph_spec hwf he) hsel hn
+
 end semiring
 
 section ordered
@@ -183,7 +209,8 @@ exported network" is false. -/
 theorem hard_cost_ne_export_cost_when_shapes_differ :
     snCost (Q := Nat) false true (hardTheta twiceAtTwoShapes fun _ => 0) opsAtTwoShapes twiceAtTwoShapes = 128 ∧
     (exportGraph (fun _ => 0) twiceAtTwoShapes).map (plainCost (Q := Nat) false opsAtTwoShapes) = some 80 ∧
-    sameUnitCost opsAtTwoShapes twiceAtTwoShapes = false := by
+    sameUnitCost opsAtTwoShapes twiceAtTwoShapes = false ∧
+    sitesSaneB (fun _ => 0) opsAtTwoShapes twiceAtTwoShapes = false := by
   decide +kernel
 
 /-- the same block at the same shape twice: charged twice, equal to the exported network -/
@@ -194,7 +221,15 @@ example :
       (plainCost (Q := Nat) false fun n => if n = 1 ∨ n = 5 then 64 else 0) = some 128 := by
   decide +kernel
 
-/-- the hypotheses of the network-level theorems are satisfiable -/
-example : SelectionOk twiceAtTwoShapes (fun _ => 0) := selectionOkB_sound (by decide +kernel)
+/-- the hypotheses of `hard_cost_eq_export_cost` are satisfiable: the block invoked twice at the
+same shape -/
+example : ∃ g, WF twiceAtTwoShapes ∧ exportGraph (fun _ => 0) twiceAtTwoShapes = some g ∧
+    SelectionOk twiceAtTwoShapes (fun _ => 0) ∧ NamesSane (fun _ => 0) twiceAtTwoShapes g ∧
+    SitesSane (fun _ => 0) (fun n => if n = 1 ∨ n = 5 then (64 : Nat) else 0) twiceAtTwoShapes :=
+  ⟨[Node.input 0, Node.leaf ⟨.module, "b.sn_branches.0"⟩ [0], Node.E, Node.E,
+    Node.leaf ⟨.module, "pool"⟩ [1], Node.leaf ⟨.module, "b.sn_branches.0"⟩ [4], Node.E, Node.E,
+    Node.output 5],
+   wfB_sound (by decide +kernel), by decide +kernel, selectionOkB_sound (by decide +kernel),
+   namesSaneB_sound (by decide +kernel), sitesSaneB_sound (by decide +kernel)⟩
 
 end PlinioVerif.C06
